@@ -81,3 +81,48 @@ def special_slots(fn):
             if ch and ch.startswith('self.') and ch.count('.') == 1:
                 out.setdefault(ch[5:], []).append(st)
     return out
+
+
+# --------------------------------------------------------------------------- passes of SimOps.__init__ (C07/C08)
+
+def stem_subst(value):
+    """value is `stems[E] if stems[E] >= 0 else E`  ->  text of E, else None."""
+    if isinstance(value, ast.IfExp):
+        t, b, o = value.test, value.body, value.orelse
+        if isinstance(b, ast.Subscript) and is_name(b.value, 'stems') and norm(b.slice) == norm(o) \
+                and isinstance(t, ast.Compare) and len(t.ops) == 1 and isinstance(t.ops[0], ast.GtE) \
+                and norm(t.left) == norm(b) and isinstance(t.comparators[0], ast.Constant) and t.comparators[0].value == 0:
+            return norm(o)
+    return None
+
+
+class Passes:
+    def __init__(self, fn):
+        self.fn = fn
+        fors = find_all(fn, ast.For, nested=False)
+        self.level_loop = next((l for l in fors if norm(l.iter).replace(' ', '') == 'enumerate(self.ops)'), None)
+        self.alloc_level_loop = next((l for l in fors if norm(l.iter).replace(' ', '') == 'zip(self.level_starts,self.level_stops)'), None)
+        if self.level_loop is None or self.alloc_level_loop is None:
+            raise AnchorError('SimOps.__init__: levelisation / allocation loops not found')
+        inner = [l for l in self.alloc_level_loop.body if isinstance(l, ast.For)]
+        self.alloc_op_loop = next((l for l in inner if norm(l.iter).replace(' ', '') == 'self.ops[op_start:op_stop]'), None)
+        if self.alloc_op_loop is None:
+            raise AnchorError('SimOps.__init__: per-op allocation loop `for op in self.ops[op_start:op_stop]` not found')
+        self.snode_loops = [l for l in fors if norm(l.iter).replace(' ', '') == 'enumerate(circuit.s_nodes)']
+
+    @staticmethod
+    def operand_names(loop):
+        """{name: op column} for `name = stems[op[K]] if stems[op[K]] >= 0 else op[K]` directly in loop body,
+        plus list of (name, column, stmt) for plain `name = op[K]` (no stem substitution)."""
+        opvar = target_names(loop.target)[-1]
+        sub, plain = {}, []
+        for st in loop.body:
+            if isinstance(st, ast.Assign) and len(st.targets) == 1 and isinstance(st.targets[0], ast.Name):
+                e = stem_subst(st.value)
+                if e is not None:
+                    m = ast.parse(e, mode='eval').body
+                    if isinstance(m, ast.Subscript) and is_name(m.value, opvar) and isinstance(m.slice, ast.Constant):
+                        sub[st.targets[0].id] = (m.slice.value, st)
+                elif isinstance(st.value, ast.Subscript) and is_name(st.value.value, opvar) and isinstance(st.value.slice, ast.Constant):
+                    plain.append((st.targets[0].id, st.value.slice.value, st))
+        return sub, plain
